@@ -954,7 +954,15 @@ func (m *dsim) remotePinnedDeps() {
 		}
 		return keys[0]
 	}
-	builder := bufmodule.NewModuleSetBuilder(ctx, slogext.NopLogger, registry, registry)
+	// sometimes the commit provider no longer knows the commits (not-exist): the legacy keys cannot be
+	// converted then, and the digest may fail - it may not quietly be computed from what the set holds
+	var commits bufmodule.CommitProvider = registry
+	forgetful := digestType == bufmodule.DigestTypeB4 && m.tp.Draw("rp.forgetful", 3) == 2
+	if forgetful {
+		commits = bufmodule.NopCommitProvider
+		m.s.Probe("commit-provider-without-the-pinned-commits")
+	}
+	builder := bufmodule.NewModuleSetBuilder(ctx, slogext.NopLogger, registry, commits)
 	builder.AddRemoteModule(keyOf(p1, "buf.build/acme/r"), true)
 	builder.AddRemoteModule(keyOf(p2, "buf.build/acme/dep"), false)
 	if m.tp.Draw("rp.local", 2) == 1 {
@@ -975,6 +983,10 @@ func (m *dsim) remotePinnedDeps() {
 			continue
 		}
 		got, err := mod.Digest(bufmodule.DigestTypeB5)
+		if err != nil && forgetful {
+			m.s.Probe("unconvertible-dependency-keys-reported")
+			return
+		}
 		if err != nil {
 			m.violate("digest-computable", "remote-pins", "digest of the remote module failed (recorded dependency keys: %v): %v", digestType, err)
 			return
